@@ -829,6 +829,9 @@ func poolElection(tier string) (p pool) {
 	for _, f := range []feat{syncF, pvF, asyncF} {
 		p.dd = append(p.dd, ddScn("vote-only-crash", 3, ids(3), f, scriptVoteOnlyCrash(), devK(tier), defaultFaults...))
 	}
+	for _, f := range []feat{syncF, asyncF} {
+		p.dd = append(p.dd, ddScn("two-terms-one-ready", 3, ids(3), f, scriptTwoTermsOneReady(), devK(tier), defaultFaults...))
+	}
 	for _, f := range []feat{syncF, asyncF, pvF} {
 		p.dd = append(p.dd, ddScn("transfer-vs-election", 3, ids(3), f, scriptTransferVsElection(), devK(tier), defaultFaults...))
 	}
@@ -865,6 +868,14 @@ func scriptTransferToRemoved() []Event {
 // transferee then campaigns for the same term with the transfer context.
 func scriptTransferVsElection() []Event {
 	return seq(camp(1), prop(1), cut(2, 3), holdFrom(1), xfer(1, 2), camp(3), flush(), prop(3), prop(2), heal(), prop(3), prop(2))
+}
+
+// scriptTwoTermsOneReady: node 1's application is slow to call Ready while it grants a vote in
+// term 1 and, before that Ready, is asked again in term 2: one Ready has to carry the promises
+// of two terms (the older one still waits for the same write).
+func scriptTwoTermsOneReady() []Event {
+	return seq(holdFrom(2), holdFrom(3), camp(2), camp(3), camp(3), pauseReady(1, 1), deliverHeld(2, 1), deliverHeld(3, 1), deliverHeld(3, 1), pauseReady(1, 0),
+		crash(1, 0), flush(), camp(2), prop(2), prop(3))
 }
 
 // scriptVoteOnlyCrash: a stale candidate and an up-to-date candidate campaign in the
